@@ -4,11 +4,13 @@ import (
 	"bytes"
 	"fmt"
 	"io"
+	"os"
 	"runtime"
 	"strings"
 	"sync"
 	"testing"
 	"time"
+	_ "time/tzdata" // the zone database travels with the test binary
 
 	"github.com/bluenviron/gomavlib/v3"
 	"github.com/bluenviron/gomavlib/v3/pkg/dialect"
@@ -177,6 +179,13 @@ func TestC07(t *testing.T) {
 		"[ticks(before call), ticks(after call)] by the harness clock and non-decreasing per link. distinct = distinct histories")
 	rep.Assume("wall clock is not stepped backwards during the run (not injected: the two clauses of the statement would contradict each other)")
 	seed := vh.Seed()
+	if os.Getenv("VERIF_SHARD") == "1" {
+		seed ^= 0x9E3779B97F4A7C15 // the child process that runs in another time zone takes other cases too
+	}
+	rep.Set("time_zone_"+os.Getenv("VERIF_SHARD"), time.Now().Format("MST -0700"))
+	if _, off := time.Now().Zone(); off != 0 {
+		rep.Count("runs_in_a_time_zone_other_than_utc", 1)
+	}
 	r := vh.Sub(seed, "c07")
 	keyRaw := r.Bytes(32)
 	key := mkKey(keyRaw)
